@@ -1,0 +1,377 @@
+//go:build verif
+
+// Verification hooks (build tag "verif") for the constant arithmetic of
+// constant.go: add-only, nothing here is compiled without the tag.
+//
+// Constants cross the hook as text:
+//
+//	I64:<dec>            int64Const
+//	Big:<dec>            intConst
+//	F64:<m>p<e>          float64Const, value m*2^e with m odd, or 0p0, -0, +Inf, -Inf, NaN
+//	BigF:<m>p<e>         floatConst (512 bit big.Float), same forms
+//	Rat:<n>/<d>          ratConst (lowest terms, d > 0)
+//	Cplx:<re>,<im>       complexConst (parts are any of the above)
+//	Str:<hex>            stringConst
+//	Bool:t | Bool:f      boolConst
+
+package compiler
+
+import (
+	"encoding/hex"
+	"errors"
+	"fmt"
+	"math"
+	"math/big"
+	"reflect"
+	"strings"
+
+	"github.com/open2b/scriggo/ast"
+)
+
+var verifKinds = map[string]reflect.Type{
+	"bool": boolType, "string": stringType,
+	"int": intType, "int8": reflect.TypeFor[int8](), "int16": reflect.TypeFor[int16](), "int32": reflect.TypeFor[int32](), "int64": reflect.TypeFor[int64](),
+	"uint": uintType, "uint8": reflect.TypeFor[uint8](), "uint16": reflect.TypeFor[uint16](), "uint32": reflect.TypeFor[uint32](), "uint64": reflect.TypeFor[uint64](),
+	"uintptr":    reflect.TypeFor[uintptr](),
+	"float32":    float32Type, "float64": float64Type,
+	"complex64":  reflect.TypeFor[complex64](), "complex128": complex128Type,
+}
+
+var verifOps = map[string]ast.OperatorType{
+	"==": ast.OperatorEqual, "!=": ast.OperatorNotEqual, "<": ast.OperatorLess, "<=": ast.OperatorLessEqual,
+	">": ast.OperatorGreater, ">=": ast.OperatorGreaterEqual, "!": ast.OperatorNot, "&": ast.OperatorBitAnd,
+	"|": ast.OperatorBitOr, "&&": ast.OperatorAnd, "||": ast.OperatorOr, "+": ast.OperatorAddition,
+	"-": ast.OperatorSubtraction, "*": ast.OperatorMultiplication, "/": ast.OperatorDivision,
+	"%": ast.OperatorModulo, "^": ast.OperatorXor, "&^": ast.OperatorAndNot, "<<": ast.OperatorLeftShift,
+	">>": ast.OperatorRightShift,
+}
+
+func verifDyadic(f *big.Float) string {
+	if f.IsInf() {
+		if f.Signbit() {
+			return "-Inf"
+		}
+		return "+Inf"
+	}
+	if f.Sign() == 0 {
+		if f.Signbit() {
+			return "-0"
+		}
+		return "0p0"
+	}
+	mant := new(big.Float)
+	exp := f.MantExp(mant) // f = mant * 2^exp, 0.5 <= |mant| < 1
+	p := int(f.MinPrec())
+	mant.SetMantExp(mant, p) // integer with p bits
+	i, acc := mant.Int(nil)
+	if acc != big.Exact {
+		panic("verifDyadic: inexact")
+	}
+	return fmt.Sprintf("%sp%d", i.String(), exp-p)
+}
+
+func verifParseDyadic(s string, prec uint) (*big.Float, error) {
+	f := new(big.Float).SetPrec(prec)
+	switch s {
+	case "-0":
+		return f.Neg(f), nil
+	case "+Inf":
+		return f.SetInf(false), nil
+	case "-Inf":
+		return f.SetInf(true), nil
+	}
+	i := strings.IndexByte(s, 'p')
+	if i < 0 {
+		return nil, errors.New("bad dyadic " + s)
+	}
+	m, ok := new(big.Int).SetString(s[:i], 10)
+	if !ok {
+		return nil, errors.New("bad dyadic " + s)
+	}
+	var e int
+	if _, err := fmt.Sscanf(s[i+1:], "%d", &e); err != nil {
+		return nil, err
+	}
+	f.SetInt(m)
+	f.SetMantExp(f, e)
+	return f, nil
+}
+
+// VerifConstDescribe returns the canonical text of a constant.
+func verifConstDescribe(c constant) string {
+	switch c := c.(type) {
+	case nil:
+		return "nil"
+	case boolConst:
+		if c {
+			return "Bool:t"
+		}
+		return "Bool:f"
+	case stringConst:
+		return "Str:" + hex.EncodeToString([]byte(c))
+	case int64Const:
+		return "I64:" + c.String()
+	case intConst:
+		if c.i == nil {
+			return "Big:nil"
+		}
+		return "Big:" + c.i.String()
+	case float64Const:
+		if math.IsNaN(float64(c)) {
+			return "F64:NaN"
+		}
+		return "F64:" + verifDyadic(new(big.Float).SetFloat64(float64(c)))
+	case floatConst:
+		return fmt.Sprintf("BigF:%s", verifDyadic(c.f)) + verifPrecNote(c.f)
+	case ratConst:
+		return "Rat:" + c.r.Num().String() + "/" + c.r.Denom().String()
+	case complexConst:
+		return "Cplx:" + verifConstDescribe(c.r) + "," + verifConstDescribe(c.i)
+	}
+	return fmt.Sprintf("unknown:%T", c)
+}
+
+// a floatConst whose big.Float does not have the 512 bit precision is flagged
+func verifPrecNote(f *big.Float) string {
+	if f.Prec() != 512 {
+		return fmt.Sprintf("@%d", f.Prec())
+	}
+	return ""
+}
+
+func verifConstParse(s string) (constant, error) {
+	i := strings.IndexByte(s, ':')
+	if i < 0 {
+		return nil, errors.New("bad constant " + s)
+	}
+	tag, v := s[:i], s[i+1:]
+	switch tag {
+	case "Bool":
+		return boolConst(v == "t"), nil
+	case "Str":
+		b, err := hex.DecodeString(v)
+		if err != nil {
+			return nil, err
+		}
+		return stringConst(b), nil
+	case "I64":
+		n, ok := new(big.Int).SetString(v, 10)
+		if !ok || !n.IsInt64() {
+			return nil, errors.New("bad I64 " + v)
+		}
+		return int64Const(n.Int64()), nil
+	case "Big":
+		n, ok := new(big.Int).SetString(v, 10)
+		if !ok {
+			return nil, errors.New("bad Big " + v)
+		}
+		return intConst{i: n}, nil
+	case "F64":
+		if v == "NaN" {
+			return float64Const(math.NaN()), nil
+		}
+		f, err := verifParseDyadic(v, 2000)
+		if err != nil {
+			return nil, err
+		}
+		x, acc := f.Float64()
+		if acc != big.Exact {
+			return nil, errors.New("F64 not a float64: " + v)
+		}
+		return float64Const(x), nil
+	case "BigF":
+		f, err := verifParseDyadic(v, 512)
+		if err != nil {
+			return nil, err
+		}
+		if f.Acc() != big.Exact {
+			return nil, errors.New("BigF does not fit 512 bits: " + v)
+		}
+		return floatConst{f: f}, nil
+	case "Rat":
+		r, ok := new(big.Rat).SetString(v)
+		if !ok {
+			return nil, errors.New("bad Rat " + v)
+		}
+		return ratConst{r: r}, nil
+	case "Cplx":
+		j := strings.IndexByte(v, ',')
+		if j < 0 {
+			return nil, errors.New("bad Cplx " + v)
+		}
+		re, err := verifConstParse(v[:j])
+		if err != nil {
+			return nil, err
+		}
+		im, err := verifConstParse(v[j+1:])
+		if err != nil {
+			return nil, err
+		}
+		return complexConst{r: re, i: im}, nil
+	}
+	return nil, errors.New("bad constant " + s)
+}
+
+// verifErrClass maps the errors of the constant operations to a small enum.
+func verifErrClass(err error) string {
+	switch err {
+	case errNotRepresentable:
+		return "notrepr"
+	case errInvalidOperation:
+		return "invalid"
+	case errDivisionByZero:
+		return "div0"
+	case errComplexDivisionByZero:
+		return "cdiv0"
+	case errNegativeShiftCount:
+		return "shift-neg"
+	case errShiftCountTooLarge:
+		return "shift-large"
+	case errShiftCountTruncatedToInteger:
+		return "shift-trunc"
+	case errConstantOverflowUint:
+		return "shift-ovf-uint"
+	}
+	m := err.Error()
+	switch {
+	case m == "constant shift overflow":
+		return "shl-overflow"
+	case m == "constant addition overflow":
+		return "add-overflow"
+	case m == "constant subtraction overflow":
+		return "sub-overflow"
+	case m == "constant multiplication overflow":
+		return "mul-overflow"
+	case strings.HasSuffix(m, "truncated to integer"):
+		return "trunc-int"
+	case strings.HasSuffix(m, "truncated to real"):
+		return "trunc-real"
+	case strings.Contains(m, " overflows "):
+		return "overflows"
+	case strings.HasPrefix(m, "constant too large"):
+		return "too-large"
+	case strings.HasPrefix(m, "malformed constant"):
+		return "malformed"
+	}
+	return "other:" + m
+}
+
+func verifRes(c constant, err error) string {
+	if err != nil {
+		return "err:" + verifErrClass(err)
+	}
+	return "ok:" + verifConstDescribe(c)
+}
+
+// VerifConst calls one operation of constant.go.
+//
+//	un  <op> <kind> <c>     c.unaryOp(op, kind)      (kind "-" = nil type)
+//	bin <op> <c1> <c2>      c1.binaryOp(op, c2)
+//	repr <kind> <c>         c.representedBy(kind)
+//	eq <c1> <c2>            c1.equals(c2)
+//	zero <c>                c.zero()
+//	same <c1> <c2>          toSameConstImpl(c1, c2)
+//	shifterr <op> <c>       shiftConstError(op, c)
+//	lit <int|float|imaginary|rune> <text>   parseBasicLiteral
+//	str <c>                 c.String()
+//
+// The result is ok:<constant>, err:<class>, or panic:<text>.
+func VerifConst(fn string, args ...string) (res string) {
+	defer func() {
+		if r := recover(); r != nil {
+			res = fmt.Sprintf("panic:%v", r)
+		}
+	}()
+	cs := func(i int) constant {
+		c, err := verifConstParse(args[i])
+		if err != nil {
+			panic("hook: " + err.Error())
+		}
+		return c
+	}
+	kind := func(i int) reflect.Type {
+		if args[i] == "-" {
+			return nil
+		}
+		t, ok := verifKinds[args[i]]
+		if !ok {
+			panic("hook: unknown kind " + args[i])
+		}
+		return t
+	}
+	op := func(i int) ast.OperatorType {
+		o, ok := verifOps[args[i]]
+		if !ok {
+			panic("hook: unknown operator " + args[i])
+		}
+		return o
+	}
+	b := func(v bool) string {
+		if v {
+			return "ok:Bool:t"
+		}
+		return "ok:Bool:f"
+	}
+	switch fn {
+	case "un":
+		return verifRes(cs(2).unaryOp(op(0), kind(1)))
+	case "bin":
+		return verifRes(cs(1).binaryOp(op(0), cs(2)))
+	case "repr":
+		return verifRes(cs(1).representedBy(kind(0)))
+	case "eq":
+		return b(cs(0).equals(cs(1)))
+	case "zero":
+		return b(cs(0).zero())
+	case "same":
+		d1, d2 := toSameConstImpl(cs(0), cs(1))
+		return "ok:" + verifConstDescribe(d1) + " " + verifConstDescribe(d2)
+	case "shifterr":
+		if err := shiftConstError(op(0), cs(1)); err != nil {
+			return "err:" + verifErrClass(err)
+		}
+		return "ok:"
+	case "lit":
+		var t ast.LiteralType
+		switch args[0] {
+		case "int":
+			t = ast.IntLiteral
+		case "float":
+			t = ast.FloatLiteral
+		case "imaginary":
+			t = ast.ImaginaryLiteral
+		case "rune":
+			t = ast.RuneLiteral
+		default:
+			panic("hook: unknown literal type " + args[0])
+		}
+		return verifRes(parseBasicLiteral(t, args[1]))
+	case "str":
+		return "ok:" + cs(0).String()
+	}
+	panic("hook: unknown function " + fn)
+}
+
+// VerifConstEval type checks the program src (package main) and returns the
+// constant declared with the given name: its canonical text, its type, and
+// whether it is untyped. err is the type checking error, if any.
+func VerifConstEval(src string, name string) (desc string, typ string, untyped bool, err error) {
+	tree, err := parseSource([]byte(src), false)
+	if err != nil {
+		return "", "", false, err
+	}
+	infos, err := typecheck(tree, nil, checkerOptions{mod: programMod})
+	if err != nil {
+		return "", "", false, err
+	}
+	var ti *typeInfo
+	for _, pi := range infos {
+		if t := pi.Declarations[name]; t != nil {
+			ti = t
+		}
+	}
+	if ti == nil || !ti.IsConstant() {
+		return "", "", false, fmt.Errorf("verif: %s is not a declared constant", name)
+	}
+	return verifConstDescribe(ti.Constant), ti.Type.String(), ti.Untyped(), nil
+}
